@@ -304,6 +304,23 @@ def run_shard(desc, seed, tier, col):
                 b = b'\x30\x80' + b + b'\x00\x00'
             return {'b': b, 'label': 'edge-length'}
         if r == 5 and d.pct(30):
+            # REAL contents octets over the whole first-octet space: binary with every base / scale / exponent-length code (the
+            # length-prefixed form with a count of 0, 1, more than there is), special values, decimal forms with odd texts
+            fo = d.pick([0x80, 0x81, 0x82, 0x83, 0x83, 0x83, 0x8f, 0x93, 0xa3, 0xb0, 0xb3, 0xc3, 0xff, 0x40, 0x41, 0x42, 0x43, 0x44, 0x7f,
+                         0x01, 0x02, 0x03, 0x00, 0x04, 0x3f])
+            if fo & 0x80 and fo & 3 == 3:
+                rest = bytes([d.pick([0, 0, 1, 2, 3, 4, 127, 255])]) + d.bytes(d.int(0, 5))
+            elif fo & 0xc0 == 0:
+                rest = d.pick([b'', b' ', b'1', b'-', b'+.', b'1e', b'1E-', b'.E1', b'1..2', b'nan', b'inf', b'-inf', b'0x10', b'1_0', b'1.5E1.5',
+                               b'\x00', b'12 34', b' 12', b'12 ', b'1,5', b'--1', b'1e400', b'1e-400', b'0.E0'])
+            else:
+                rest = d.bytes(d.int(0, 5))
+            c = bytes([fo]) + rest
+            b = b'\x09' + x690.length(len(c)) + c
+            if d.pct(30):
+                b = b'\x30' + x690.length(len(b)) + b if d.pct(50) else b'\xa1\x80' + b + b'\x00\x00'
+            return {'b': b, 'label': 'real-contents'}
+        if r == 5 and d.pct(40):
             # numbers spelled with thousands of digits (the interpreter refuses int(str) beyond 4300 digits with a ValueError of its
             # own): decimal REALs in the three ISO 6093 forms, time strings with endless fractions, huge integers and arcs
             nd = d.pick([4299, 4300, 4301, 4302, 5000, 9000])
